@@ -252,19 +252,6 @@ class C14(PropBase):
     }
 
     # ------------------------------------------------------------------ generation
-    def lk_pairs(self, c):
-        en = load_enums()
-        e = c.exc
-        if e is None:
-            return []
-        cand = {e["code"], e["flags"], e["i0"], e["code"] & 0xffff, (e["code"] & 0x0fff0000) >> 16, (e["flags"] >> 29) & 7}
-        out = []
-        for name, eid in ENUM_IDS.items():
-            for v in sorted(cand):
-                if v in en[name]:
-                    out.append((eid, v))
-        return out
-
     def gen_exception(self, rng, osc, tids, dump_tid):
         en = load_enums()
 
@@ -752,7 +739,9 @@ class C14(PropBase):
                     return 30, [ff], "EXCEPTION_STACK_BUFFER_OVERRUN / " + en["FastFailCode"].get(ff, hx(ff))
                 return 27, [code], "STATUS_STACK_BUFFER_OVERRUN"
             if isin("ExceptionCodeWindows", code):
-                return 24, [code], None
+                nm = en["ExceptionCodeWindows"][code]
+                return 24, [code], {"OUT_OF_MEMORY": "Out of Memory", "UNHANDLED_CPP_EXCEPTION": "Unhandled C++ Exception",
+                                    "SIMULATED": "Simulated Exception"}.get(nm, nm)
             if isin("WinErrorWindows", code):
                 return 25, [code], en["WinErrorWindows"][code]
             if isin("NtStatusWindows", code):
@@ -767,7 +756,12 @@ class C14(PropBase):
             sig = {4: (18, "Sigill"), 5: (19, "Sigtrap"), 7: (20, "Sigbus"), 8: (21, "Sigfpe"), 11: (22, "Sigsegv"), 31: (23, "Sigsys")}.get(code)
             if sig and isin("ExceptionCodeLinux%sKind" % sig[1], flags):
                 return sig[0], [flags], "SIG%s / %s" % (sig[1][3:].upper(), en["ExceptionCodeLinux%sKind" % sig[1]][flags])
-            return 17, [code, flags], None
+            # write_signal: the signal, then the si_code (signed) by name, SI_USER suppressed, else the flags in hex
+            name = en["ExceptionCodeLinux"][code]
+            si = flags - (1 << 32) if flags >= 1 << 31 else flags
+            if si in en["ExceptionCodeLinuxSicode"]:
+                return 17, [code, flags], name if en["ExceptionCodeLinuxSicode"][si] == "SI_USER" else "%s / %s" % (name, en["ExceptionCodeLinuxSicode"][si])
+            return 17, [code, flags], "%s / %s" % (name, hx(flags))
         if osc == OS_MAC:
             if not isin("ExceptionCodeMac", code):
                 return 32, [code, flags], "unknown %s / %s" % (hx(code), hx(flags))
@@ -788,7 +782,8 @@ class C14(PropBase):
                 return 15, [ty, i1, i2], None
             if code == 12 and isin("ExceptionCodeMacGuardType", ty):
                 return 16, [ty, i1, i2], None
-            return 0, [code, flags], None
+            name = en["ExceptionCodeMac"][code]
+            return 0, [code, flags], "Simulated Exception" if name == "SIMULATED" else "%s / %s" % (name, hx(flags))
         return 32, [code, flags], "unknown %s / %s" % (hx(code), hx(flags))
 
     def nontrivial(self, case, ans):
